@@ -86,11 +86,19 @@ func (t *tcpTransport) SetEncryption(ctx context.Context, e SessionEncryption) e
 
 	var tlsConn *tls.Conn
 
+	// The bytes that follow the last received envelope belong to the TLS handshake, except for
+	// the envelope delimiter: depending on how the stream was fragmented, that delimiter (and
+	// the start of the handshake) may be either in the decoder buffer or still in the connection.
+	conn := &tlsUpgradeConn{
+		Conn:   t.conn,
+		reader: io.MultiReader(t.decoder.Buffered(), t.conn),
+	}
+
 	// https://github.com/FluuxIO/go-xmpp/blob/master/xmpp_transport.go#L80
 	if t.server {
-		tlsConn = tls.Server(t.conn, t.TLSConfig)
+		tlsConn = tls.Server(conn, t.TLSConfig)
 	} else {
-		tlsConn = tls.Client(t.conn, t.TLSConfig)
+		tlsConn = tls.Client(conn, t.TLSConfig)
 	}
 
 	var deadline time.Time
@@ -115,6 +123,36 @@ func (t *tcpTransport) SetEncryption(ctx context.Context, e SessionEncryption) e
 	t.setConn(tlsConn)
 	t.encryption = SessionEncryptionTLS
 	return nil
+}
+
+// tlsUpgradeConn is the connection handed to the TLS handshake when an established JSON stream
+// is upgraded: it reads first what the JSON decoder had already buffered and discards the JSON
+// whitespace (the envelope delimiter) that precedes the first TLS record.
+type tlsUpgradeConn struct {
+	net.Conn
+	reader  io.Reader
+	started bool
+}
+
+func (c *tlsUpgradeConn) Read(b []byte) (int, error) {
+	for {
+		n, err := c.reader.Read(b)
+		if c.started {
+			return n, err
+		}
+
+		i := 0
+		for i < n && (b[i] == '\n' || b[i] == '\r' || b[i] == ' ' || b[i] == '\t') {
+			i++
+		}
+		if i < n {
+			c.started = true
+			return copy(b, b[i:n]), err
+		}
+		if err != nil || len(b) == 0 {
+			return 0, err
+		}
+	}
 }
 
 func (t *tcpTransport) Send(ctx context.Context, e envelope) error {
